@@ -95,6 +95,24 @@ theorem confined_rootless (base : List Name) (S : State) (op : Op) (r : Result) 
     ∀ q, ¬ base <+: q → S' q = S q ∨ (q <+: base ∧ S' q = some .dir) :=
   fun q hq => step_confined_rootless base S op r S' h q hq
 
+/-- Why `confined` asks for the root path to exist: the statement without that hypothesis,
+     ∀ base S op r S', FS.Step base S op r S' → ∀ q, ¬ base <+: q → S' q = S q,
+is FALSE in the specification (and in the code: the memory wrapper and the sub-path view may be opened on a path
+that does not exist, and the first `MkdirAll("")` / write through them creates the missing ancestors of their own
+root).  `confined_rootless` is the exact general statement. -/
+theorem confined_needs_root :
+    ¬ ∀ (base : List Name) (S : State) (op : Op) (r : Result) (S' : State),
+        FS.Step base S op r S' → ∀ q, ¬ base <+: q → S' q = S q := by
+  intro h
+  have hstep : FS.Step [[97], [98]] State.empty (.mkdirAll []) .ok (mkdirSt State.empty ([[97], [98]] ++ [])) := by
+    simp only [FS.Step, show norm [] = some [] from by decide]
+    refine Or.inl ⟨?_, rfl, rfl⟩
+    intro q _ d
+    simp only [State.empty]
+    split <;> intro e <;> cases e
+  have := h _ _ _ _ _ hstep [[97]] (by decide)
+  simp [mkdirSt, State.empty] at this
+
 /-- NOTHING OUTSIDE IS READ OR LISTED.  Two trees that coincide at and below the root of the view (the root
 path existing in both) give every call through the view the same possible answers, and the trees afterwards
 coincide at and below the root again: answers and effects are a function of the tree below the root. -/
